@@ -8,9 +8,12 @@ require (
 )
 
 require (
+	github.com/charlievieth/fastwalk v1.0.10 // indirect
+	github.com/junegunn/go-shellwords v0.0.0-20250127100254-2aa3b3277741 // indirect
 	github.com/mattn/go-isatty v0.0.20 // indirect
 	github.com/rivo/uniseg v0.4.7 // indirect
 	golang.org/x/sys v0.30.0 // indirect
+	golang.org/x/term v0.29.0 // indirect
 )
 
 replace github.com/junegunn/fzf => /repo
